@@ -206,3 +206,56 @@ Proof.
   - unfold is_done. destruct Fn as [I0 _]. unfold vfind in I0. now rewrite I0.
   - apply equals_sync_dir; assumption.
 Qed.
+
+(* ---------------------------------------------------------------- FetchSearchResult overlapping the worker *)
+Lemma done_is_final : forall fs s, safe fs s -> is_done s = true -> final fs s.
+Proof.
+  intros fs s [[U _]|[[I _]|Fn]] D; [| |assumption]; unfold is_done in D; unfold vfind in *.
+  - rewrite U in D. discriminate.
+  - rewrite I in D. discriminate.
+Qed.
+
+(* the Done flag and the merged list of a fetch belong to the same directory state s1, whatever the
+   directory has become (s2) while the files were read; so an answer that says Done is the answer of a
+   finished directory, i.e. the synchronous one *)
+Theorem fetch_concurrent_done : forall fs per s1 s2 hi rev naggs limit,
+  safe fs s1 -> dir_sorted s1 -> NoDup fs ->
+  let qs := map (fun f => qpr_of per (CQpr f)) fs in
+  Forall (fun q => aggsok naggs (q_aggs q)) qs ->
+  let r := fetch_concurrent hi rev per s1 s2 in
+  r = (is_done s1, fetch_dir hi rev per s1)
+  /\ (fst r = true ->
+      let sy := sync_search naggs limit hi rev qs in
+      final fs s1 /\ take limit (q_ids (snd r)) = q_ids sy /\ q_hist (snd r) = q_hist sy
+      /\ aggs_equiv (q_aggs (snd r)) (q_aggs sy)).
+Proof.
+  intros fs per s1 s2 hi rev naggs limit Sf Ss ND qs W r. subst r. split; [reflexivity|].
+  unfold fetch_concurrent, fetch_result. simpl. intro D.
+  pose proof (done_is_final fs s1 Sf D) as Fn. split; [assumption|].
+  unfold fetch_dir. apply equals_sync_lists; [|assumption].
+  apply Permutation_sym. now apply final_stored.
+Qed.
+
+(* the two-reads variant is refuted: fraction 0 persisted when the files were listed, the request
+   finished (fractions 0 and 1) when Done was read again *)
+Definition w_p0 : qpr := {| q_ids := [(1005, 1)]; q_hist := []; q_aggs := []; q_total := 0 |}.
+Definition w_p1 : qpr := {| q_ids := [(1012, 2)]; q_hist := []; q_aggs := []; q_total := 0 |}.
+Lemma two_reads_refuted :
+  let per := [(0, w_p0); (1, w_p1)] in
+  let s1 : dir := [(0, CInfo false); (2, CQpr 0)] in
+  let s2 := apply_ops s1 (resume_ops s1 [0; 1]) in
+  fetch_two_reads 0 false per s1 s2 = (true, w_p0)
+  /\ q_ids (fetch_dir 0 false per s2) = [(1012, 2); (1005, 1)]
+  /\ fetch_concurrent 0 false per s1 s2 = (false, w_p0).
+Proof. vm_compute. repeat split. Qed.
+
+(* mustWriteFileAtomic without O_TRUNC is refuted: a longer leftover temporary file ends up under the
+   final name, the fraction counts as processed, Done is set, and its partial result is lost *)
+Lemma notrunc_refuted :
+  let per := [(0, w_p0)] in
+  let s : dir := [(0, CInfo false); (3, CLong)] in
+  let bad := apply_ops_notrunc s (resume_ops s [0]) in
+  let good := apply_ops s (resume_ops s [0]) in
+  nm_find 2 bad = Some CLong /\ is_done bad = true /\ q_ids (fetch_dir 0 false per bad) = []
+  /\ nm_find 2 good = Some (CQpr 0) /\ q_ids (fetch_dir 0 false per good) = [(1005, 1)].
+Proof. vm_compute. repeat split. Qed.
